@@ -113,3 +113,128 @@ Theorem C04_unlock_all_releases_each_stripe_once :
   usteps t ((t, UNLOCK a l) :: tr) <= stripes_from (sh_ s) first.
 Proof. exact unlock_all_total_reachable. Qed.
 Print Assumptions C04_unlock_all_releases_each_stripe_once.
+
+(* ---- every sequential call completes (NoFuel.v): the model's loops carry fuel where the C++ has unbounded loops; fuel is never exhausted on well-formed tables, so the refinement theorems cover every run (the displacement loop runs exactly once sequentially; the insert loop strictly grows the table, which is bounded) ---- *)
+From LC Require Import NoFuel.
+Theorem C04_displacement_loop_runs_once :
+  forall (c : Core.config) (hash : N -> N),
+  InvDefs.cfg_ok c ->
+  forall (mode : bool) (t : Core.table) (hp i1 i2 : N) (fuel : nat),
+  InvDefs.all_migrated t ->
+  tags_ok hash (Core.cur t) ->
+  Core.run_cuckoo_loop c hash mode t hp i1 i2 (S fuel) = Core.run_cuckoo_loop c hash mode t hp i1 i2 1 /\
+  snd (Core.run_cuckoo_loop c hash mode t hp i1 i2 (S fuel)) <> Core.RC_fuel.
+Proof. exact run_cuckoo_loop_once. Qed.
+Print Assumptions C04_displacement_loop_runs_once.
+
+Theorem C04_displacement_never_out_of_fuel :
+  forall (c : Core.config) (hash : N -> N),
+  InvDefs.cfg_ok c ->
+  forall (mode : bool) (t : Core.table) (i1 i2 : N),
+  InvDefs.settled c hash t -> snd (Core.run_cuckoo c hash mode t i1 i2) <> Core.RC_fuel.
+Proof. exact run_cuckoo_no_fuel. Qed.
+Print Assumptions C04_displacement_never_out_of_fuel.
+
+Theorem C04_displacement_never_out_of_fuel_with_pending_stripes :
+  forall (c : Core.config) (hash : N -> N),
+  InvDefs.cfg_ok c ->
+  forall (t : Core.table) (i1 i2 : N),
+  Lazy.wf c hash t -> snd (Core.run_cuckoo c hash false t i1 i2) <> Core.RC_fuel.
+Proof. exact run_cuckoo_no_fuel_wf. Qed.
+Print Assumptions C04_displacement_never_out_of_fuel_with_pending_stripes.
+
+Theorem C04_cuckoo_insert_completes :
+  forall (c : Core.config) (hash : N -> N),
+  InvDefs.cfg_ok c ->
+  forall (mode : bool) (t : Core.table) (k i1 i2 : N),
+  InvDefs.settled c hash t ->
+  exists (t' : Core.table) (pos : Core.table_position),
+  Core.cuckoo_insert c hash mode t k i1 i2 = (t', Core.CI_pos pos).
+Proof. exact cuckoo_insert_pos. Qed.
+Print Assumptions C04_cuckoo_insert_completes.
+
+Theorem C04_insert_loop_completes :
+  forall (c : Core.config) (hash : N -> N),
+  InvDefs.cfg_ok c ->
+  forall (mode : bool) (t : Core.table) (k : N),
+  Core.nothrow c = true ->
+  Refine.good c hash t ->
+  Refine.immediate c mode t ->
+  forall (t' : Core.table) (res : Core.il_result),
+  Core.cuckoo_insert_loop c hash (Core.cuckoo_fast_double c hash) mode t k
+  (InvDefs.i1_of hash (Core.bhp (Core.cur t)) k) (InvDefs.i2_of hash (Core.bhp (Core.cur t)) k)
+  Core.insert_loop_fuel = (t', res) -> Refine.esc c hash t \/ res <> Core.IL_exn Core.EOutOfFuel.
+Proof. exact insert_loop_no_fuel. Qed.
+Print Assumptions C04_insert_loop_completes.
+
+Theorem C04_insert_family_completes :
+  forall (c : Core.config) (hash : N -> N),
+  InvDefs.cfg_ok c ->
+  forall (mode : bool) (t : Core.table) (k : N) (v : Z) (g : Z -> bool -> option (Z * bool)),
+  Core.nothrow c = true ->
+  Refine.good c hash t ->
+  Refine.immediate c mode t ->
+  Refine.esc c hash t \/ snd (Api.uprase_gen c hash mode t k v g) <> inl Core.EOutOfFuel.
+Proof. exact uprase_gen_no_fuel. Qed.
+Print Assumptions C04_insert_family_completes.
+
+Theorem C04_insert_family_completes_below_limit :
+  forall (c : Core.config) (hash : N -> N),
+  InvDefs.cfg_ok c ->
+  forall (mode : bool) (t : Core.table) (k : N) (v : Z) (g : Z -> bool -> option (Z * bool)),
+  Core.nothrow c = true ->
+  Refine.good c hash t ->
+  Refine.immediate c mode t ->
+  (Core.mhp t <= 59)%N -> snd (Api.uprase_gen c hash mode t k v g) <> inl Core.EOutOfFuel.
+Proof. exact uprase_gen_no_fuel_capped. Qed.
+Print Assumptions C04_insert_family_completes_below_limit.
+
+Theorem C04_rehash_completes :
+  forall (c : Core.config) (hash : N -> N),
+  InvDefs.cfg_ok c ->
+  forall (mode : bool) (t : Core.table) (n : N),
+  Core.nothrow c = true ->
+  Refine.good c hash t ->
+  Refine.limC c (Core.mhp t) -> snd (Core.cuckoo_rehash c hash mode t n) <> inl Core.EOutOfFuel.
+Proof. exact cuckoo_rehash_no_fuel. Qed.
+Print Assumptions C04_rehash_completes.
+
+Theorem C04_reserve_completes :
+  forall (c : Core.config) (hash : N -> N),
+  InvDefs.cfg_ok c ->
+  forall (mode : bool) (t : Core.table) (n : N),
+  Core.nothrow c = true ->
+  Refine.good c hash t ->
+  Refine.limC c (Core.mhp t) -> snd (Core.cuckoo_reserve c hash mode t n) <> inl Core.EOutOfFuel.
+Proof. exact cuckoo_reserve_no_fuel. Qed.
+Print Assumptions C04_reserve_completes.
+
+Theorem C04_doubling_completes :
+  forall (c : Core.config) (hash : N -> N) (mode : bool) (t : Core.table) (hp : N),
+  Core.nothrow c = true -> snd (Core.cuckoo_fast_double c hash mode t hp) <> inl Core.EOutOfFuel.
+Proof. exact cuckoo_fast_double_no_fuel. Qed.
+Print Assumptions C04_doubling_completes.
+
+Theorem C04_more_fuel_same_result :
+  forall (c : Core.config) (hash : N -> N) (n : nat),
+  (forall (m : nat) (auto mode : bool) (t : Core.table) (hp : N),
+  snd (Core.fast_double_f c hash n auto mode t hp) <> inl Core.EOutOfFuel ->
+  Core.fast_double_f c hash (n + m) auto mode t hp = Core.fast_double_f c hash n auto mode t hp) /\
+  (forall (m : nat) (auto mode : bool) (t : Core.table) (new_hp : N),
+  snd (Core.expand_simple_f c hash n auto mode t new_hp) <> inl Core.EOutOfFuel ->
+  Core.expand_simple_f c hash (n + m) auto mode t new_hp =
+  Core.expand_simple_f c hash n auto mode t new_hp).
+Proof. exact resize_mono. Qed.
+Print Assumptions C04_more_fuel_same_result.
+
+Theorem C04_rebuild_out_of_fuel_only_far_below_limit :
+  forall (c : Core.config) (hash : N -> N),
+  InvDefs.cfg_ok c ->
+  forall (mode : bool) (t : Core.table) (k : N) (v : Z) (g : Z -> bool -> option (Z * bool)),
+  Core.nothrow c = false ->
+  Refine.good c hash t ->
+  Refine.limC c (Core.mhp t) ->
+  snd (Api.uprase_gen c hash mode t k v g) = inl Core.EOutOfFuel ->
+  (Core.bhp (Core.cur t) + 3 <= Core.mhp t)%N.
+Proof. exact uprase_gen_fuel_room. Qed.
+Print Assumptions C04_rebuild_out_of_fuel_only_far_below_limit.
